@@ -300,3 +300,8 @@ def run(prog, chk):
                    "a failure handler may clean it and hand it back with its kind unchanged)", primary=False, floor=4)
     if memrules.clean_helpers_reset(prog, r12) < 4:
         raise Broken("fewer than 4 frees in *_clean helpers")
+
+    r13 = chk.rule("R13-clean-helpers-reset-counters", "a `*_clean` function that releases an indexed block leaves its counters at 0: the "
+                   "failure handler of an in-place copy cleans the half-built target and hands it back as an empty list", primary=False, floor=2)
+    if memrules.clean_resets_bounds(prog, r13) < 2:
+        raise Broken("no counter bounding a block released by a *_clean helper found")
